@@ -61,6 +61,10 @@ func c07Chain() *sim.Chain {
 					sim.Trace{From: addrN(byte(i + 2)), To: addrN(byte(i + 3)), Value: big.NewInt(int64(i + 10)), CallType: "staticcall"})
 				txs[ti].Type = 2
 				txs[ti].MaxFee, txs[ti].MaxPrio = big.NewInt(int64(100+i)), big.NewInt(int64(3+i))
+				// receipt fields differ between blocks and transactions, so that a receipt
+				// attached to the wrong block or transaction shows
+				txs[ti].GasUsed = uint64(21000 + 100*i + ti)
+				txs[ti].Status = byte((i + ti) % 2)
 			}
 			c.Append(txs)
 		}
@@ -230,9 +234,39 @@ var c07Ops = []corruption{
 			return resp, false
 		}
 		i := arg % len(list)
+		if (arg/len(list))%2 == 1 {
+			// the copy does not follow the original: it comes last
+			el["result"] = append(append([]any{}, list...), cloneJSON(list[i]))
+			return resp, true
+		}
 		out := append([]any{}, list[:i+1]...)
 		out = append(out, cloneJSON(list[i]))
 		el["result"] = append(out, list[i+1:]...)
+		return resp, true
+	}},
+	{"tx-reorder", func(resp any, pos, arg int) (any, bool) {
+		// the transactions of a block body are listed out of index order (each one still names its own index)
+		a, ok := asArr(resp)
+		if !ok || len(a) == 0 {
+			return resp, false
+		}
+		m, _ := asObj(a[pos%len(a)])
+		r, ok := asObj(m["result"])
+		if !ok {
+			return resp, false
+		}
+		txs, ok := asArr(r["transactions"])
+		if !ok || len(txs) < 2 {
+			return resp, false
+		}
+		if _, full := asObj(txs[0]); !full {
+			return resp, false
+		}
+		i := arg % len(txs)
+		j := (i + 1) % len(txs)
+		out := append([]any{}, txs...)
+		out[i], out[j] = out[j], out[i]
+		r["transactions"] = out
 		return resp, true
 	}},
 	{"item-reorder", func(resp any, pos, arg int) (any, bool) {
@@ -376,6 +410,7 @@ type servedSet struct {
 	logs       []servedLog
 	receipts   []map[string]any
 	traces     []map[string]any
+	dupLogIdx  map[[2]uint64]bool // (block, log index) served more than once with different content
 	lagging    bool                // a request was answered by a replica that lacks blocks of the range
 	itemHashes map[uint64][]string // block number -> blockHash of every served log / receipt / trace ("" = none)
 	wrongBlock bool // a receipts/traces response answers for another block than asked, or mixes blocks
@@ -604,6 +639,38 @@ func c07Judge(ss *servedSet, f *glf.Filter, start, limit uint64, blocks []eth.Bl
 			}
 		}
 	}
+	// every transaction index at most once per returned block, every log index at most once per block
+	// (unless the source itself served two different logs under one index)
+	ss.dupLogIdx = map[[2]uint64]bool{}
+	{
+		first := map[[2]uint64]servedLog{}
+		for _, l := range ss.logs {
+			k := [2]uint64{l.block, l.idx}
+			if o, ok := first[k]; ok {
+				if o.tx != l.tx || o.addr != l.addr || o.data != l.data || strings.Join(o.topics, ",") != strings.Join(l.topics, ",") {
+					ss.dupLogIdx[k] = true
+				}
+			} else {
+				first[k] = l
+			}
+		}
+	}
+	for i := range blocks {
+		seenTx, seenLog := map[uint64]bool{}, map[uint64]bool{}
+		for ti := range blocks[i].Txs {
+			tx := &blocks[i].Txs[ti]
+			if seenTx[uint64(tx.Idx)] {
+				return fmt.Sprintf("block %d is returned with two transactions of index %d", blocks[i].Num(), tx.Idx)
+			}
+			seenTx[uint64(tx.Idx)] = true
+			for _, l := range tx.Logs {
+				if seenLog[uint64(l.Idx)] && !ss.dupLogIdx[[2]uint64{blocks[i].Num(), uint64(l.Idx)}] {
+					return fmt.Sprintf("block %d is returned with log %d twice", blocks[i].Num(), l.Idx)
+				}
+				seenLog[uint64(l.Idx)] = true
+			}
+		}
+	}
 	// logs: attachment relation
 	if f.UseLogs || f.UseReceipts {
 		type key struct{ b, li uint64 }
@@ -655,6 +722,10 @@ func c07Judge(ss *servedSet, f *glf.Filter, start, limit uint64, blocks []eth.Bl
 		}
 	}
 	if f.UseReceipts {
+		rcount2 := map[[2]uint64]int{}
+		for _, r := range ss.receipts {
+			rcount2[[2]uint64{pu(r["blockNumber"]), pu(r["transactionIndex"])}]++
+		}
 		for _, r := range ss.receipts {
 			b, t := pu(r["blockNumber"]), pu(r["transactionIndex"])
 			if !inRange(b) {
@@ -668,6 +739,16 @@ func c07Judge(ss *servedSet, f *glf.Filter, start, limit uint64, blocks []eth.Bl
 			}
 			if tx == nil {
 				return fmt.Sprintf("served receipt of block %d tx %d is missing from the result", b, t)
+			}
+			// (traces carry a transaction hash too and are attached later: compare only where the receipt is the last writer)
+			if th, _ := r["transactionHash"].(string); !f.UseTraces && !strings.EqualFold(th, hx(tx.PrecompHash)) && rcount2[[2]uint64{b, t}] == 1 {
+				return fmt.Sprintf("receipt of block %d tx %d attached with transaction hash %x, served %v", b, t, tx.PrecompHash, r["transactionHash"])
+			}
+			if bh, _ := r["blockHash"].(string); len(bh) == 66 && !f.UseHeaders && !f.UseBlocks && !strings.EqualFold(bh, hx(blocks[b-start].Hash())) && rcount2[[2]uint64{b, t}] == 1 {
+				return fmt.Sprintf("block %d is returned with hash %x, its receipts were served with block hash %v", b, blocks[b-start].Hash(), r["blockHash"])
+			}
+			if rcount2[[2]uint64{b, t}] > 1 {
+				continue // two receipts claim this (block, transaction): either may be the one attached
 			}
 			if uint64(tx.Status) != pu(r["status"]) || uint64(tx.GasUsed) != pu(r["gasUsed"]) {
 				return fmt.Sprintf("receipt of block %d tx %d attached with status/gasUsed %d/%d, served %v/%v", b, t, tx.Status, tx.GasUsed, r["status"], r["gasUsed"])
